@@ -57,6 +57,10 @@ struct Pause {  // used by simulated devices (the stream sink) that are called f
 // ---------------------------------------------------------------------------------- stream sink
 // A std::streambuf with a byte budget: accepts `budget` bytes and then fails in one of three
 // ways.  It is the library's only I/O seam (operator<< on a caller-supplied std::ostream).
+struct SinkError : std::runtime_error {   // what the simulated device throws in kThrow mode
+  SinkError() : std::runtime_error("sink: simulated write error") {}
+};
+
 class FaultBuf : public std::streambuf {
 public:
   enum Mode { kEof = 0, kShort = 1, kThrow = 2 };
@@ -71,7 +75,7 @@ protected:
     if (traits_type::eq_int_type(ch, traits_type::eof())) return traits_type::not_eof(ch);
     if (budget >= 0 && static_cast<long>(accepted.size()) >= budget) {
       ++refused;
-      if (mode == kThrow) throw std::runtime_error("sink: simulated write error");
+      if (mode == kThrow) throw SinkError();
       return traits_type::eof();
     }
     accepted.push_back(traits_type::to_char_type(ch));
@@ -91,7 +95,7 @@ protected:
     }
     accepted.append(s, static_cast<size_t>(room));
     ++refused;
-    if (mode == kThrow) throw std::runtime_error("sink: simulated write error");
+    if (mode == kThrow) throw SinkError();
     return room;  // short write (kShort) or nothing more accepted (kEof)
   }
 };
